@@ -236,4 +236,54 @@ example : (match ev c03Env 30 .keys
 example : fpPure (.dict [("A", .int 1), ("Z", .int 9)]) ["A"] = some [.dict [("A", .int 1)]] := by decide +kernel
 example : fpPure (.dict [("A", .int 1), ("Z", .int 9)]) ["A"] = fpPure (.dict [("A", .int 1)]) ["A"] := by decide +kernel
 
+/-! ### What the function slot of an application reads is part of its keys -/
+
+/-- `keys` / `explain` of an application (`FunctionApplication`, `PartialApplication`) are the union of what the
+    expression in the FUNCTION slot reports and what the arguments report -/
+theorem application_keys_structure (env : Env) (run : Run) (id : Nat) (f : Expr) (args : List Expr)
+    (kw : List (String × Expr)) (p : Bool) (op : Op) (h : op = .keys ∨ op = .explain) (o : V) :
+    applicationOp env run id f args kw p op o = (do
+      let a ← run op f o
+      let b ← pseudo op (tid id 1) (do
+        let x ← pseudo op (tid id 2) (unionOver run op args o)
+        let y ← pseudo op (tid id 3) (unionOver run op (kw.map Prod.snd) o)
+        pure (unionV x y))
+      pure (unionV a b)) := by
+  rcases h with h | h <;> subst h <;> simp [applicationOp]
+
+/-- every key the function slot reports is a key of the application: if `keys` of the application succeeds with `ks`,
+    `keys` of the function expression succeeded (from the same state) with a set contained in `ks` -/
+theorem application_keys_cover_function (env : Env) (run : Run) (id : Nat) (f : Expr) (args : List Expr)
+    (kw : List (String × Expr)) (p : Bool) (o : V) (s s' : St) (ks : V)
+    (h : applicationOp env run id f args kw p .keys o s = some (.ok ks, s')) :
+    ∃ kf s1, run .keys f o s = some (.ok kf, s1) ∧ ∀ k ∈ kf.setElems, k ∈ ks.setElems := by
+  rw [application_keys_structure env run id f args kw p .keys (Or.inl rfl)] at h
+  simp only [bind_run] at h
+  cases hf : run .keys f o s with
+  | none => simp [hf] at h
+  | some q =>
+    obtain ⟨r, s1⟩ := q
+    cases r with
+    | error e => simp [hf] at h
+    | ok kf =>
+      refine ⟨kf, s1, rfl, ?_⟩
+      simp only [hf] at h
+      generalize hb : (pseudo Op.keys (tid id 1) (do
+        let x ← pseudo Op.keys (tid id 2) (unionOver run Op.keys args o)
+        let y ← pseudo Op.keys (tid id 3) (unionOver run Op.keys (kw.map Prod.snd) o)
+        pure (unionV x y))) s1 = rb at h
+      cases rb with
+      | none => simp at h
+      | some q2 =>
+        obtain ⟨r2, s2⟩ := q2
+        cases r2 with
+        | error e => simp at h
+        | ok b =>
+          simp [pure_run] at h
+          obtain ⟨hk, _⟩ := h
+          subst hk
+          intro k hk
+          simp only [unionV, V.setElems, unionKeys, List.mem_append]
+          exact Or.inl hk
+
 end Labrea
